@@ -16,8 +16,6 @@ import pyarrow as pa
 
 from vgi_rpc.rpc import (
     MethodType,
-    RpcError,
-    VersionError,
     _ClientLogSink,
     _emit_access_log,
     _get_auth_and_metadata,
@@ -37,6 +35,7 @@ from .._common import (
     _RpcHttpError,
 )
 from ._responses import (
+    _BAD_REQUEST_ERRORS,
     _check_content_type,
     _current_response_status,
     _get_request_stream,
@@ -233,7 +232,9 @@ class _UploadUrlResource:
                 ipc_method, kwargs = _read_request(_get_request_stream(req), self._app._server.ipc_validation)
                 if ipc_method != _UPLOAD_URL_METHOD:
                     raise TypeError(f"Method mismatch: expected '{_UPLOAD_URL_METHOD}', got '{ipc_method}'")
-            except (pa.ArrowInvalid, TypeError, StopIteration, RpcError, VersionError) as exc:
+            except _BAD_REQUEST_ERRORS as exc:
+                # Malformed IPC in every form Arrow reports it (not only ArrowInvalid), plus the
+                # framework's own refusals: the same 400 as on the unary and stream routes.
                 raise _RpcHttpError(exc, status_code=HTTPStatus.BAD_REQUEST) from exc
             except Exception as exc:
                 # Same reasoning as the unary/stream guards: an unclassified
